@@ -22,7 +22,7 @@ CHUNK = 12000
 EXCLUDED = ("metadataRule",)
 
 TIERS = {
-    "quick": dict(budget=20000, capL=7, k=1, k_extra=None),
+    "quick": dict(budget=8000, capL=7, k=1, k_extra=None),
     "thorough": dict(budget=1000000, capL=8, k=2, k_extra=(3, 2000000)),
 }
 
@@ -36,6 +36,14 @@ class Ctx:
         self.child = {a: Node(a, id="c_" + a) for a in self.ra.alphabet}
         for c in self.child.values():
             c.parent = self.parent
+        # one Rule object that is re-used for every word of this work item (public API: get_rule(...).validate_rule)
+        from metapype.eml import rule as mrule
+        self.robj = mrule.Rule(rule_name)
+        # entries an error list may already hold when this node is reached inside a larger validation: one
+        # CHILD_NOT_ALLOWED per child name, reported earlier for ANOTHER node
+        self.other = Node("zzOtherNode", id="other")
+        self.prefill = [(ValidationError.CHILD_NOT_ALLOWED, f"Child '{a}' not allowed in parent 'zzOtherNode'", self.other, a)
+                        for a in self.ra.alphabet]
 
 
 def run_seq(ctx, seq):
@@ -68,6 +76,32 @@ def run_seq(ctx, seq):
         return verdict, None, probs
     ff_ok = ff_exc is None
     co_ok = len(errs) == 0
+    # the same node through a re-used Rule object, and with an error list that already holds entries of other nodes:
+    # the decision must be the same and the earlier entries must stay
+    try:
+        r_exc = None
+        try:
+            ctx.robj.validate_rule(p)
+        except MetapypeRuleError as e:
+            r_exc = e
+        errs2 = list(ctx.prefill)
+        ctx.robj.validate_rule(p, errs2)
+        errs3 = list(ctx.prefill)
+        ruleinfo.validate_node(p, ctx.rule, ctx.direct, errs3)
+    except Exception as e:  # noqa
+        probs.append(problem("foreign_exception", case, expected="None or a rule error", observed=repr(e), rule=ctx.rule,
+                             mode="reused-rule/prefilled-list", exc=type(e).__name__))
+        return verdict, None, probs
+    if (r_exc is None) != ff_ok:
+        probs.append(problem("reused_rule_object_disagrees", case, expected="fresh Rule: " + ("accepted" if ff_ok else repr(ff_exc)),
+                             observed="re-used Rule: " + ("accepted" if r_exc is None else repr(r_exc)), rule=ctx.rule, mode="fail-fast"))
+    for label, ex in (("reused-rule", errs2), ("validate.node", errs3)):
+        new_entries = ex[len(ctx.prefill):]
+        if ex[:len(ctx.prefill)] != ctx.prefill:
+            probs.append(problem("earlier_entries_disturbed", case, expected="prefix of the error list kept", observed=label, rule=ctx.rule))
+        elif [e[0] for e in new_entries] != [e[0] for e in errs]:
+            probs.append(problem("prefilled_list_changes_result", case, expected=[e[0].name for e in errs],
+                                 observed=[getattr(e[0], "name", repr(e[0])) for e in new_entries], rule=ctx.rule, mode=label))
     if ff_ok != co_ok:
         probs.append(problem("modes_disagree", case, expected="same verdict in both modes",
                              observed={"fail_fast_ok": ff_ok, "errs": [e[0].name for e in errs if isinstance(e, tuple)]},
@@ -110,6 +144,9 @@ def work(item):
     n = 0
     v_counts = {"accept": 0, "reject": 0, "unspec": 0}
 
+    class Abort(Exception):
+        pass
+
     def feed(seq):
         nonlocal n
         n += 1
@@ -117,7 +154,24 @@ def work(item):
         v_counts[verdict] += 1
         if probs:
             acc.add_problems(probs)
+            if sum(acc.problem_counts.values()) > 300:
+                # the property is already refuted many times over in this work item; do not grind through the rest
+                # (a defect that makes each further validation slower would otherwise stall the run)
+                raise Abort()
 
+    try:
+        _work_body(kind, param, ra, feed)
+    except Abort:
+        acc.count("work_items_cut_short_after_300_problems")
+    acc.count("sequences", n)
+    acc.notes["per_rule"] = {rule_name + ":" + kk: vv for kk, vv in v_counts.items()}
+    acc.notes["per_rule"][rule_name + ":" + kind] = n
+    if n and len(acc.samples) < 1 and kind != "short":
+        acc.sample({"rule": rule_name, "kind": kind, "param": param, "sequences": n})
+    return acc
+
+
+def _work_body(kind, param, ra, feed):
     if kind == "sweep":
         L, prefix = param
         prefix = tuple(prefix)
@@ -140,12 +194,6 @@ def work(item):
                 pm = p + m
                 for w in W:
                     feed(pm + w)
-    acc.count("sequences", n)
-    acc.notes["per_rule"] = {rule_name + ":" + kk: vv for kk, vv in v_counts.items()}
-    acc.notes["per_rule"][rule_name + ":" + kind] = n
-    if n and len(acc.samples) < 1 and kind != "short":
-        acc.sample({"rule": rule_name, "kind": kind, "param": param, "sequences": n})
-    return acc
 
 
 def plan(tier):
@@ -217,7 +265,7 @@ def explore(tier):
             vac.append(rn)
         for kk in ("accept", "reject", "unspec"):
             acc.outcome(kk, per.get(rn + ":" + kk, 0))
-    if vac:
+    if vac and not acc.problems:
         sys.stderr.write(f"HARNESS-ERROR: vacuous oracle (no accepted or no rejected word) for rules {vac}\n")
         sys.exit(2)
     # distinct non-trivial: words of the exhaustive sweeps (duplicate-free by construction) that are not accepted
